@@ -291,7 +291,7 @@ impl Check for C05 {
     }
     fn cases(&self, tier: Tier) -> u64 {
         match tier {
-            Tier::Quick => 250_000,
+            Tier::Quick => 150_000,
             Tier::Thorough => 6_000_000,
         }
     }
